@@ -31,7 +31,7 @@ func (c05) Technique() string {
 	return "deterministic simulation: every storage request of a seeded range read / subset traversal / HAMT lookup / path resolution is monitored at the simulated block store against the block set an independent model allows, and the same operation is re-run on a starved store (every other block made unavailable) where it must still succeed"
 }
 func (c05) Rule() string {
-	return "one evaluation = one operation in one configuration (monitor or starved store) on a seeded DAG; operations: Seek(a)+ReadFull(b-a), MatcherSubset(a,b) traversal with bytes consumed, LookupByString on a lazily reified sharded directory, UnixFSPathSelector traversal over a mixed tree; non-trivial = the DAG has blocks outside the allowed set (there was something to over-fetch); distinct = distinct (operation, range/edge class or path depth, seam event sequence) signature"
+	return "one evaluation = one operation in one configuration (monitor or starved store; link system with or without NodeReifier) on a seeded DAG; operations: Seek(a)+ReadFull(b-a) on a fresh reader, a 2-5 step Seek+ReadFull history on one reader (each step monitored against its own range), MatcherSubset(a,b) traversal with bytes consumed, lookup by string/segment/node on a lazily reified sharded directory (this builder, boxo incl. insert/remove histories, mixed-fanout), UnixFSPathSelector traversal over a mixed tree incl. paths that name no entry; non-trivial = the DAG has blocks outside the allowed set (there was something to over-fetch); distinct = distinct (operation, range/edge class or path depth, seam event sequence) signature"
 }
 func (c05) Assumptions() []string {
 	return []string{
